@@ -408,18 +408,22 @@ func runC01(c *Ctx) {
 			fU := P.Field("proto/gnmi", "Notification", "Update")
 			fD := P.Field("proto/gnmi", "Notification", "Delete")
 			ranged := map[*types.Var]bool{}
-			instrs(f, func(in ssa.Instruction) {
-				// range over a slice lowers to len(x) + index loop
-				if call, ok := in.(*ssa.Call); ok {
-					if la, ok := lenArg(call); ok {
-						if fl := fieldOf(la); fl == fU || fl == fD {
-							if inLoopWithout(firstUseBlock(call), nil) || true {
-								ranged[fl] = true
+			// the arm may live in helpers of the package (deliver(n), a local emit closure): the unit is audited
+			unit := staticClosure(f)
+			for _, uf := range unit {
+				instrs(uf, func(in ssa.Instruction) {
+					// range over a slice lowers to len(x) + index loop
+					if call, ok := in.(*ssa.Call); ok {
+						if la, ok := lenArg(call); ok {
+							if fl := fieldOf(la); fl == fU || fl == fD {
+								if inLoopWithout(firstUseBlock(call), nil) || true {
+									ranged[fl] = true
+								}
 							}
 						}
 					}
-				}
-			})
+				})
+			}
 			nHandler := 0
 			callsHandler := func(g *ssa.Function) bool {
 				found := false
@@ -434,7 +438,11 @@ func runC01(c *Ctx) {
 				}
 				return found
 			}
-			for _, ci := range callsIn(f) {
+			var unitCalls []ssa.CallInstruction
+			for _, uf := range unit {
+				unitCalls = append(unitCalls, callsIn(uf)...)
+			}
+			for _, ci := range unitCalls {
 				if !inLoopWithout(ci.Block(), nil) {
 					continue
 				}
